@@ -246,3 +246,76 @@ Print Assumptions C03_generated_VerticalZoom_bounds_are_the_model.
 Theorem C03_generated_CheckZoom_is_the_model : forall z, Generated.CheckZoom z = Ids.check_zoom z.
 Proof. exact GenEqCheck.gen_CheckZoom_eq. Qed.
 Print Assumptions C03_generated_CheckZoom_is_the_model.
+
+(* ---- Go's int64 arithmetic made explicit (DESIGN.md 4.2, int64 mode): the same three kernels regenerated with wrap-around, truncating
+   division, arithmetic shifts, the saturating int64(math.Pow(2,e)) and panics (generated/Generated64.v; result `Some (v, flag)`,
+   flag = no intermediate left the int64 range, None = panic). On zooms 0..35 and |index| <= 2^zoom they neither panic nor wrap and return
+   the model's value, so "int64 = Z on the property's domain" is a theorem for these kernels (theories/GenC03.v over GenEq64Zoom);
+   the function assembled from them (`change_g64`: int64 CheckZoom, int64 bounds, result loops, cross product, Unique) is the model.
+   The result loops, the cross product, Unique, parsing/printing and the wrapper remain hand-written models. ---- *)
+From SID Require I64 GenC03.
+Theorem C03_int64_HorizontalZoomMinMax_is_model : forall zin x y zout,
+  0 <= zin <= 35 -> 0 <= zout <= 35 -> Z.abs x <= 2 ^ zin -> Z.abs y <= 2 ^ zin ->
+  Generated64.HorizontalZoomMinMax zin x y zout = Some (ZoomCore.hzoom_minmax zin x y zout, true).
+Proof. exact GenC03.int64_HorizontalZoomMinMax_is_model. Qed.
+Print Assumptions C03_int64_HorizontalZoomMinMax_is_model.
+Theorem C03_int64_VerticalZoom_bounds_is_model : forall zin f zout,
+  0 <= zin <= 35 -> 0 <= zout <= 35 -> Z.abs f <= 2 ^ zin ->
+  Generated64.VerticalZoom_minmax zin f zout = Some (ZoomCore.vzoom_minmax zin f zout, true).
+Proof. exact GenC03.int64_VerticalZoom_minmax_is_model. Qed.
+Print Assumptions C03_int64_VerticalZoom_bounds_is_model.
+Theorem C03_int64_CheckZoom_is_model : forall z, Generated64.CheckZoom z = Some (Ids.check_zoom z, true).
+Proof. exact GenC03.int64_CheckZoom_is_model. Qed.
+Print Assumptions C03_int64_CheckZoom_is_model.
+(* without any domain: whatever the int64 kernels return with the flag set is the model's value *)
+Theorem C03_int64_HorizontalZoomMinMax_exact_is_model : forall zin x y zout r,
+  Generated64.HorizontalZoomMinMax zin x y zout = Some (r, true) -> r = ZoomCore.hzoom_minmax zin x y zout.
+Proof. exact GenC03.int64_HorizontalZoomMinMax_exact_is_model. Qed.
+Print Assumptions C03_int64_HorizontalZoomMinMax_exact_is_model.
+Theorem C03_int64_VerticalZoom_bounds_exact_is_model : forall zin f zout r,
+  Generated64.VerticalZoom_minmax zin f zout = Some (r, true) -> r = ZoomCore.vzoom_minmax zin f zout.
+Proof. exact GenC03.int64_VerticalZoom_minmax_exact_is_model. Qed.
+Print Assumptions C03_int64_VerticalZoom_bounds_exact_is_model.
+(* the specification of the bounds, stated of the int64 kernels *)
+Theorem C03_int64_HorizontalZoomMinMax_spec : forall zin x y zout,
+  0 <= zin <= 35 -> 0 <= zout <= 35 -> 0 <= x < 2 ^ zin -> 0 <= y < 2 ^ zin ->
+  exists a b c d, Generated64.HorizontalZoomMinMax zin x y zout = Some ((a, b, c, d), true) /\
+    (forall ox, a <= ox <= c <-> rel1 zin x zout ox) /\ (forall oy, b <= oy <= d <-> rel1 zin y zout oy).
+Proof. exact GenC03.int64_HorizontalZoomMinMax_spec. Qed.
+Print Assumptions C03_int64_HorizontalZoomMinMax_spec.
+Theorem C03_int64_VerticalZoom_bounds_spec : forall zin f zout,
+  0 <= zin <= 35 -> 0 <= zout <= 35 -> - 2 ^ zin <= f < 2 ^ zin ->
+  exists lo hi, Generated64.VerticalZoom_minmax zin f zout = Some ((lo, hi), true) /\ forall o, lo <= o <= hi <-> rel1 zin f zout o.
+Proof. exact GenC03.int64_VerticalZoom_minmax_spec. Qed.
+Print Assumptions C03_int64_VerticalZoom_bounds_spec.
+Theorem C03_int64_ancestor_of_minus_one : forall zin zout, 0 <= zout <= zin -> zin <= 35 ->
+  Generated64.VerticalZoom_minmax zin (-1) zout = Some ((-1, -1), true).
+Proof. exact GenC03.int64_ancestor_of_minus_one. Qed.
+Print Assumptions C03_int64_ancestor_of_minus_one.
+(* the list-level function over the int64 kernels *)
+Theorem C03_int64_single_id_is_model : forall H V i, valid i -> 0 <= H <= 35 -> 0 <= V <= 35 ->
+  GenC03.one_g64 H V i = Some (one H V i).
+Proof. exact GenC03.one_g64_eq. Qed.
+Print Assumptions C03_int64_single_id_is_model.
+Theorem C03_int64_list_function_is_model : forall ids H V, (forall i, In i ids -> valid i) -> 0 <= H <= 35 -> 0 <= V <= 35 ->
+  GenC03.change_g64 ids H V = Some (Ok (change_eids ids H V)).
+Proof. exact GenC03.change_g64_is_model. Qed.
+Print Assumptions C03_int64_list_function_is_model.
+Theorem C03_int64_exactly_the_intersecting_voxels : forall ids H V, (forall i, In i ids -> valid i) -> 0 <= H <= 35 -> 0 <= V <= 35 ->
+  exists l, GenC03.change_g64 ids H V = Some (Ok l) /\ NoDup l /\
+    forall o, In o l <-> eh o = H /\ ev o = V /\ exists i, In i ids /\ overlaps i o.
+Proof. exact GenC03.change_g64_exact. Qed.
+Print Assumptions C03_int64_exactly_the_intersecting_voxels.
+Theorem C03_int64_rejects_bad_zoom : forall ids H V, ~ (0 <= H <= 35 /\ 0 <= V <= 35) -> GenC03.change_g64 ids H V = Some Err.
+Proof. exact GenC03.change_g64_bad_zoom. Qed.
+Print Assumptions C03_int64_rejects_bad_zoom.
+
+(* non-vacuity, by evaluating the generated int64 kernels: below ground; the extreme zoom pairs of the domain; and a witness that the domain
+   hypothesis matters — outside it the int64 code wraps (x * 2^35 for x = 2^40 is 0 in int64) and the flag says so *)
+Example C03_int64_nonvacuous :
+  Generated64.VerticalZoom_minmax 3 (-1) 1 = Some ((-1, -1), true) /\
+  Generated64.VerticalZoom_minmax 0 (-1) 35 = Some ((- 2 ^ 35, -1), true) /\
+  Generated64.HorizontalZoomMinMax 35 (2 ^ 35 - 1) 0 0 = Some ((0, 0, 0, 0), true) /\
+  GenC03.change_g64 [mk 3 1 1 3 (-1)] 3 1 = Some (Ok [mk 3 1 1 1 (-1)]) /\
+  Generated64.HorizontalZoomMinMax 0 (2 ^ 40) 0 35 = Some ((0, 0, 2 ^ 35 - 1, 2 ^ 35 - 1), false).
+Proof. repeat split; vm_compute; reflexivity. Qed.
